@@ -114,6 +114,7 @@ func c12Alphabet() []seqEnv {
 }
 
 func runC12(r *Run) {
+	c12Linger(r)
 	if r.Want("method") {
 		c12Method(r)
 	}
